@@ -65,7 +65,8 @@ outer:
 					base := scenarioDir(o, "pool", sc)
 					p := newProject(o, base, "in")
 					p.ExtraEnv = []string{fmt.Sprintf("DUD_VERIF_SHARED_WORKERS=%d", sh), fmt.Sprintf("DUD_VERIF_DEDICATED_WORKERS=%d", de), fmt.Sprintf("GOMAXPROCS=%d", gmp)}
-					if rr.chance(1, 3) {
+					forced := sc%3 == 1
+					if forced {
 						// the cache cannot be renamed into: every file is copied and then replaced by a link
 						p.ExtraEnv = append(p.ExtraEnv, "DUD_VERIF_FORCE_NO_RENAME=1")
 						s.count("forced-copy-into-cache")
@@ -82,7 +83,7 @@ outer:
 					default:
 						art = genTree(rr, 0, treeOpts{maxDepth: 3, maxFan: 6, hostile: false, allowEmptyDir: true}, &pool, nil)
 					}
-					if (shape == "wide" || shape == "random") && rr.chance(1, 2) {
+					if (shape == "wide" || shape == "random") && (forced || rr.chance(1, 2)) {
 						long := strings.Repeat("L", 210)
 						art.set(long+"_first", nFile(rr.bytes(40)))
 						art.set(long+"_second", nFile(rr.bytes(41)))
@@ -128,6 +129,9 @@ outer:
 					s.count("shape:" + shape)
 					s.count(fmt.Sprintf("gomaxprocs:%d", gmp))
 					cp := rr.chance(1, 2)
+					if forced {
+						cp = false // the link strategy is the one that replaces copies by links afterwards
+					}
 					sp := want(11, 24)
 					if failing {
 						sp = want(5, 24)
